@@ -30,7 +30,8 @@ func TestSweep(t *testing.T) {
 		for _, ch := range []int{2, 3, 8} {
 			Oracle.One(t, env, rec, "sweep", &Case{S: e.S.Name, D: e.D.Name, Amps: BAmps[ds], Ch: ch})
 		}
-		if ds == 8 { // every 8-bit code, alone in short buffers and repeated in long ones
+		Oracle.One(t, env, rec, "sweep", &Case{S: e.S.Name, D: e.D.Name, Amps: BAmps[ds], Fix: 3}) // buffers recycled through a pool
+		if ds == 8 {                                                                               // every 8-bit code, alone in short buffers and repeated in long ones
 			all := make([]int64, 256)
 			for i := range all {
 				all[i] = int64(i) - 128
